@@ -34,11 +34,13 @@ Definition r_div (a b : R) : res R := if Req_EM_T b 0 then Err (Raise EZeroDiv) 
 Definition r_sqrt (x : R) : res R := if Rlt_dec x 0 then Err (Raise EValue) else Val (sqrt x).
 Definition r_log (x : R) : res R := if Rlt_dec 0 x then Val (ln x) else Err (Raise EValue).
 (* math.pow / ** restricted to what the draw and density code needs: a positive
-   base, or a zero base with a positive exponent; anything else is outside the
-   model (Python: complex results, ZeroDivisionError, ValueError) *)
+   base; a zero base with a non-negative exponent; a negative base squared;
+   anything else is outside the model (Python: complex results,
+   ZeroDivisionError, ValueError) *)
 Definition r_pow (x y : R) : res R :=
   if Rlt_dec 0 x then Val (Rpower x y)
   else if Req_EM_T x 0 then (if Rlt_dec 0 y then Val 0 else if Req_EM_T y 0 then Val 1 else Err Unmodelled)
+  else if Req_EM_T y 2 then Val (x * x)
   else Err Unmodelled.
 
 Lemma r_div_val : forall a b, b <> 0 -> r_div a b = Val (a / b).
@@ -53,6 +55,15 @@ Lemma r_pow_zero : forall y, 0 < y -> r_pow 0 y = Val 0.
 Proof.
   intros. unfold r_pow. destruct (Rlt_dec 0 0); [lra|].
   destruct (Req_EM_T 0 0); [|contradiction]. destruct (Rlt_dec 0 y); [reflexivity|contradiction].
+Qed.
+
+Lemma r_pow_sq : forall x, r_pow x 2 = Val (x * x).
+Proof.
+  intros x. unfold r_pow. destruct (Rlt_dec 0 x).
+  - f_equal. replace 2 with (INR 2) by (simpl; lra). rewrite Rpower_pow by assumption. simpl. ring.
+  - destruct (Req_EM_T x 0).
+    + subst. destruct (Rlt_dec 0 2); [|lra]. f_equal. ring.
+    + destruct (Req_EM_T 2 2); [reflexivity|contradiction].
 Qed.
 
 Section RealInstance.
